@@ -421,6 +421,17 @@ def gen_family(rng, force=(), forbid=(), n_masters=None, max_glyphs=14, p_sparse
             kerning.append([l, r, v])
         if marks and rng.random() < 0.4:
             kerning.append([kern_names[0], marks[0][0], -15])
+        k1g = [g for g in groups if g.startswith("public.kern1.") and groups[g]]
+        if k1g and rng.random() < 0.7:
+            # a class pair plus an exception for one member of the class
+            g1 = k1g[0]
+            member = [m for m in groups[g1] if m in nameset]
+            r = rng.choice(kern_names)
+            if member and (g1, r) not in seen and (member[0], r) not in seen:
+                seen.add((g1, r))
+                seen.add((member[0], r))
+                kerning.append([g1, r, rng.choice([-60, -45, 30])])
+                kerning.append([member[0], r, rng.choice([-5, 12, -90])])
         if "multiscript" in on:
             # kerning inside each of several scripts (several per-script kern lookups)
             latin = [n for n in kern_names if n.split(".")[0] in ("A", "V", "T", "a", "o", "n")]
@@ -844,6 +855,7 @@ def gen_family(rng, force=(), forbid=(), n_masters=None, max_glyphs=14, p_sparse
         dslib["public.openTypeCategories"] = dcats
     fam = {"features_on": sorted(on), "upm": upm, "axes": axes, "masters": masters, "source_order": source_order,
            "include_files": include_files,
+           "partial_source_locations": (rng.choice([True, "all"]) if axes and rng.random() < 0.3 else False),
            "sparse": sparse, "rules": rules, "instances": instances, "dslib": dslib,
            "variable_fonts": variable_fonts}
     return fam
@@ -915,7 +927,10 @@ def _perturb_master(rng, m0, k, on, spec):
                 break
     kerning = []
     for l, r, v in m0["kerning"]:
-        if rng.random() < 0.06:
+        is_exception = (not l.startswith("public.")) and any(
+            l in members and [g, r, vv][:2] == [g, r] for g, members in m0["groups"].items()
+            if g.startswith("public.kern1.") for (ll, rr, vv) in m0["kerning"] if ll == g and rr == r)
+        if rng.random() < (0.3 if is_exception else 0.06):
             continue  # pair only present in some masters
         kerning.append([l, r, v + rng.choice([0, -10, -20, 15]) * k])
     if rng.random() < 0.2 and m0["kerning"]:
